@@ -649,3 +649,48 @@ def dirty_destination(check, label, lang, sources, extra_args=(), earlier_source
                         "file_after_run": None if got is None else got.decode("utf-8", "replace")[-2500:],
                         "fresh_run": ref.decode("utf-8", "replace")[-2500:], "rc": r["rc"]}
     return None
+
+
+ON_DISK_NOW = """/// A user record.
+#[typeshare]
+#[serde(rename_all = "camelCase")]
+pub struct UserRecord {
+    pub user_id: u32,
+    #[serde(rename = "e-mail")]
+    pub email: Option<String>,
+    #[serde(default)]
+    pub tags: Vec<String>,
+    pub scores: HashMap<String, u8>,
+}
+
+/// What happened.
+#[typeshare]
+#[serde(tag = "type", content = "content", rename_all = "kebab-case")]
+pub enum Event {
+    SignedIn { user_id: u32 },
+    Renamed(String),
+    SignedOut,
+}
+
+#[typeshare]
+pub type Alias = Vec<UserRecord>;
+"""
+ON_DISK_BEFORE = ON_DISK_NOW + """
+/// A type of an earlier version of the program, removed since: its text is longer than anything that follows.
+#[typeshare]
+#[serde(rename_all = "SCREAMING_SNAKE_CASE")]
+pub enum LegacyStatusOfAnEarlierVersion { NotStartedYet, RunningRightNow, FinishedSuccessfully, FailedWithAnError }
+"""
+
+
+def on_disk_tie(check):
+    """shared by the checks of all properties about generated definitions: the binary, run over a destination that holds an earlier
+    output (longer / equally long / shorter / of an earlier version of the program), leaves exactly what a run into a fresh path
+    writes - for all six languages"""
+    for lang in LANGS:
+        prob = dirty_destination(check, "shared", lang, {"src/lib.rs": ON_DISK_NOW}, earlier_sources={"src/lib.rs": ON_DISK_BEFORE})
+        if prob:
+            check.violation("%s: written over a destination that holds an earlier output (%s) the generated file is not what a fresh run writes: "
+                            "the definitions on disk mix two runs" % (lang, prob["state"]), case=prob, impl=prob["file_after_run"],
+                            model=prob["fresh_run"], failing_input=True)
+            return
